@@ -7,7 +7,7 @@ PRECS = {"s": 1, "d": 2, "c": 3, "z": 4}
 
 
 def driver(prec="d", variant="verif"):
-    return build.harness("drv_pipe_" + prec, ["drv_pipe.c", "verif_rt.c"], variant=variant, defines=["PREC=%d" % PRECS[prec]], wrap=["pthread_mutex_unlock"])
+    return build.harness("drv_pipe_" + prec, ["drv_pipe.c", "verif_rt.c"], variant=variant, defines=["PREC=%d" % PRECS[prec]], wrap=["pthread_mutex_unlock", "pthread_mutex_lock"])
 
 
 def job_line(j):
